@@ -167,6 +167,10 @@ def gen_cases(rng, tier):
       elif fault == 'start_terminal':
         start_raw = r.choice(['exc', 'stop'])
       nodes = [_p(1, raw[0], a1), {'t': 'G', 's': [], 'm': [_p(2, raw[1], a2)], 'td': [_p(3, raw[2], a3)]}]
+      if k % 3 == 0:
+        # with_args keys that collide with plug argument names
+        nodes[0]['wa'] = True
+        nodes[1]['td'][0]['wa'] = True
       case = {'nodes': nodes, 'plugs': spec, 'callbacks': [False, r.random() < 0.3, False][:r.choice([0, 1, 2, 3])],
               'src': fault}
       if start_assign is not None:
